@@ -1,7 +1,8 @@
 """C19"""
 PROPERTY = "C19"
 LEVEL = "proof"
-FUNCTIONS = []
+FUNCTIONS = ['uxarray.grid.connectivity._replace_fill_values',
+    'uxarray.io._topology._process_connectivity']
 STANDINS = ["sharing"]
 ASSUMPTIONS = []
 EXPLANATION = ""
